@@ -9,6 +9,16 @@ import (
 type MethodCase struct {
 	M     *Method
 	Types []*TypeDef
+	// declarations the method relies on at service / API level (merged by Pack)
+	SvcErrors   []ErrorDef
+	SvcHTTPErrs []Resp
+	APIErrors   []ErrorDef
+	APIHTTPErrs []Resp
+	Schemes     []Scheme
+	SvcSecurity *Security
+	APISecurity *Security
+	// Own forces the case into a service (and design) of its own
+	Own bool
 }
 
 // TypeMenu is the L1 type alphabet: name -> (type, needed definitions).
@@ -269,7 +279,7 @@ func L1Pair(side string, thorough bool) []MethodCase {
 
 // Single wraps one method case into a one-method design (used to ask goa whether it accepts it).
 func Single(mc MethodCase) *Spec {
-	return &Spec{Types: mc.Types, Services: []*Service{{Name: "s0", Methods: []*Method{mc.M}}}}
+	return Pack([]MethodCase{mc}, 1, 1, "single")[0]
 }
 
 // Pack groups method cases into designs of perService methods per service and perDesign
@@ -278,16 +288,55 @@ func Pack(cases []MethodCase, perService, perDesign int, family string) []*Spec 
 	var out []*Spec
 	var cur *Spec
 	var svc *Service
+	prevOwn := false
 	for _, mc := range cases {
-		if svc == nil || len(svc.Methods) >= perService {
-			if cur == nil || len(cur.Services) >= perDesign {
+		if svc == nil || len(svc.Methods) >= perService || mc.Own || prevOwn {
+			if cur == nil || len(cur.Services) >= perDesign || mc.Own || prevOwn {
 				cur = &Spec{Family: family}
 				out = append(out, cur)
 			}
 			svc = &Service{Name: fmt.Sprintf("s%d", len(cur.Services))}
 			cur.Services = append(cur.Services, svc)
 		}
+		prevOwn = mc.Own
 		svc.Methods = append(svc.Methods, mc.M)
+		for _, e := range mc.SvcErrors {
+			if !hasErr(svc.Errors, e.Name) {
+				svc.Errors = append(svc.Errors, e)
+			}
+		}
+		for _, r := range mc.SvcHTTPErrs {
+			if !hasResp(svc.HTTPErrs, r.Error) {
+				svc.HTTPErrs = append(svc.HTTPErrs, r)
+			}
+		}
+		for _, e := range mc.APIErrors {
+			if !hasErr(cur.Errors, e.Name) {
+				cur.Errors = append(cur.Errors, e)
+			}
+		}
+		for _, r := range mc.APIHTTPErrs {
+			if !hasResp(cur.HTTPErrs, r.Error) {
+				cur.HTTPErrs = append(cur.HTTPErrs, r)
+			}
+		}
+		for _, sc := range mc.Schemes {
+			dup := false
+			for _, x := range cur.Schemes {
+				if x.Name == sc.Name {
+					dup = true
+				}
+			}
+			if !dup {
+				cur.Schemes = append(cur.Schemes, sc)
+			}
+		}
+		if mc.SvcSecurity != nil {
+			svc.Security = mc.SvcSecurity
+		}
+		if mc.APISecurity != nil {
+			cur.Security = mc.APISecurity
+		}
 		for _, d := range mc.Types {
 			if cur.TypeDefByName(d.Name) == nil {
 				cur.Types = append(cur.Types, d)
@@ -337,6 +386,256 @@ func L2ResultStatus() []MethodCase {
 			m2.Feat = map[string]string{"family": "L2-tags", "tag-attr": req, "tag-loc": "header"}
 			out = append(out, MethodCase{M: m2})
 		}
+	}
+	return out
+}
+
+type validEntry struct {
+	Name string
+	Base *Type // type carrying the validation
+	V    *Valid
+}
+
+func validMenu() []validEntry {
+	out := []validEntry{
+		{"enum_string", P(KString), &Valid{Enum: []any{"x", "yy"}}},
+		{"enum_int", P(KInt), &Valid{Enum: []any{1, 5}}},
+		{"min_int", P(KInt), &Valid{Min: F(3)}},
+		{"max_int", P(KInt), &Valid{Max: F(10)}},
+		{"exmin_int", P(KInt), &Valid{ExMin: F(3)}},
+		{"exmax_int", P(KInt), &Valid{ExMax: F(10)}},
+		{"minmax_int32", P(KInt32), &Valid{Min: F(-2), Max: F(2)}},
+		{"min_uint", P(KUInt), &Valid{Min: F(2)}},
+		{"min_float64", P(KFloat64), &Valid{Min: F(0.5)}},
+		{"max_float64", P(KFloat64), &Valid{Max: F(2.5)}},
+		{"exmin_float64", P(KFloat64), &Valid{ExMin: F(0.5)}},
+		{"exmax_float32", P(KFloat32), &Valid{ExMax: F(2.5)}},
+		{"minlen_string", P(KString), &Valid{MinLen: I(2)}},
+		{"maxlen_string", P(KString), &Valid{MaxLen: I(3)}},
+		{"minmaxlen_string", P(KString), &Valid{MinLen: I(1), MaxLen: I(2)}},
+		{"minlen_bytes", P(KBytes), &Valid{MinLen: I(2)}},
+		{"pattern_string", P(KString), &Valid{Pattern: "^[a-c]+$"}},
+		{"pattern2_string", P(KString), &Valid{Pattern: "[0-9]{2}"}},
+	}
+	for _, f := range Formats() {
+		out = append(out, validEntry{"format_" + f, P(KString), &Valid{Format: f}})
+	}
+	return out
+}
+
+// L1Validation is the validation family: every validation keyword x nesting position x
+// location x requiredness, one validated attribute per method.
+func L1Validation(side string, thorough bool) []MethodCase {
+	var out []MethodCase
+	n := 0
+	add := func(a *Attr, loc string, req bool, defs []*TypeDef, feat map[string]string) {
+		name := fmt.Sprintf("m%d", n)
+		n++
+		var m *Method
+		if side == "payload" {
+			m = PayloadMethod(name, []attrAt{{a, loc, req}})
+		} else {
+			m = ResultMethod(name, []attrAt{{a, loc, req}}, 200)
+		}
+		feat["family"] = "L1-validation-" + side
+		feat["loc"] = loc
+		if req {
+			feat["req"] = "required"
+		} else {
+			feat["req"] = "optional"
+		}
+		m.Feat = feat
+		out = append(out, MethodCase{M: m, Types: defs})
+	}
+	locs := allLocs
+	if side == "result" {
+		locs = []string{LocHeader, LocBody}
+	}
+	for _, ve := range validMenu() {
+		isFormat := strings.HasPrefix(ve.Name, "format_")
+		for _, loc := range locs {
+			if isFormat && !thorough && loc != LocQuery && loc != LocBody {
+				continue
+			}
+			if loc == LocCookie && side == "payload" && ve.Base.K != KString {
+				// non-string request cookies are covered by L1-single; keep the family small
+				continue
+			}
+			for _, req := range []bool{true, false} {
+				if loc == LocPath && !req {
+					continue
+				}
+				// position: the attribute itself
+				add(A("aa", WithV(ve.Base, ve.V)), loc, req, nil, map[string]string{"valid": ve.Name, "pos": "attribute"})
+			}
+		}
+		if isFormat && !thorough && ve.Name != "format_date" && ve.Name != "format_ipv4" {
+			continue
+		}
+		// position: array element (query and body)
+		for _, loc := range []string{LocQuery, LocBody} {
+			if side == "result" && loc == LocQuery {
+				continue
+			}
+			if ve.Base.K == KBytes {
+				continue
+			}
+			add(A("aa", ArrT(WithV(ve.Base, ve.V))), loc, true, nil, map[string]string{"valid": ve.Name, "pos": "array-element"})
+		}
+		// position: map element and map key (body)
+		add(A("aa", MapT(P(KString), WithV(ve.Base, ve.V))), LocBody, true, nil, map[string]string{"valid": ve.Name, "pos": "map-element"})
+		if ve.Base.K == KString || ve.Base.K == KInt {
+			add(A("aa", MapT(WithV(ve.Base, ve.V), P(KString))), LocBody, false, nil, map[string]string{"valid": ve.Name, "pos": "map-key"})
+		}
+		// position: field of a nested user type (body)
+		inner := &TypeDef{Name: "InnerV", Kind: "type", Attrs: []*Attr{A("fa", WithV(ve.Base, ve.V)), A("fb", P(KString))}, Required: []string{"fa"}}
+		add(A("aa", User("InnerV")), LocBody, true, []*TypeDef{inner}, map[string]string{"valid": ve.Name, "pos": "nested-field"})
+		// position: alias type carrying the validation
+		alias := &TypeDef{Name: "AliasV", Kind: "alias", Base: WithV(ve.Base, ve.V)}
+		for _, loc := range []string{LocQuery, LocBody} {
+			if side == "result" && loc == LocQuery {
+				loc = LocHeader
+			}
+			add(A("aa", User("AliasV")), loc, true, []*TypeDef{alias}, map[string]string{"valid": ve.Name, "pos": "alias"})
+		}
+	}
+	// collection lengths
+	for _, loc := range []string{LocQuery, LocBody} {
+		if side == "result" && loc == LocQuery {
+			continue
+		}
+		add(A("aa", WithV(ArrT(P(KString)), &Valid{MinLen: I(1)})), loc, true, nil, map[string]string{"valid": "minlen_array", "pos": "attribute"})
+		add(A("aa", WithV(ArrT(P(KInt)), &Valid{MaxLen: I(2)})), loc, false, nil, map[string]string{"valid": "maxlen_array", "pos": "attribute"})
+	}
+	add(A("aa", WithV(MapT(P(KString), P(KInt)), &Valid{MinLen: I(1)})), LocBody, true, nil, map[string]string{"valid": "minlen_map", "pos": "attribute"})
+	add(A("aa", WithV(MapT(P(KString), P(KInt)), &Valid{MaxLen: I(1)})), LocBody, false, nil, map[string]string{"valid": "maxlen_map", "pos": "attribute"})
+	// conflicting levels: alias bound and attribute bound both apply (conjunction)
+	aliasMin := &TypeDef{Name: "AliasMin", Kind: "alias", Base: WithV(P(KInt), &Valid{Min: F(3)})}
+	for _, loc := range []string{LocQuery, LocBody} {
+		if side == "result" && loc == LocQuery {
+			loc = LocHeader
+		}
+		add(A("aa", WithV(User("AliasMin"), &Valid{Max: F(5)})), loc, true, []*TypeDef{aliasMin}, map[string]string{"valid": "alias_min+attr_max", "pos": "alias+attribute"})
+		add(A("aa", WithV(User("AliasMin"), &Valid{Min: F(1)})), loc, true, []*TypeDef{aliasMin}, map[string]string{"valid": "alias_min3+attr_min1", "pos": "alias+attribute"})
+	}
+	// required checks on nilable and non-nilable types
+	for _, te := range typeMenu(true) {
+		if len(te.Defs) > 0 || te.Name == "any" {
+			continue
+		}
+		for _, loc := range te.Locs {
+			if loc == LocPath || (side == "result" && (loc == LocQuery || loc == LocPath)) {
+				continue
+			}
+			if loc == LocCookie && te.T.K != KString {
+				continue
+			}
+			add(A("aa", cloneType(te.T)), loc, true, nil, map[string]string{"valid": "required", "pos": "attribute", "type": te.Name})
+		}
+	}
+	return out
+}
+
+func hasErr(l []ErrorDef, n string) bool {
+	for _, e := range l {
+		if e.Name == n {
+			return true
+		}
+	}
+	return false
+}
+
+func hasResp(l []Resp, n string) bool {
+	for _, e := range l {
+		if e.Error == n {
+			return true
+		}
+	}
+	return false
+}
+
+// L2Errors is the error family: level {method, service, API} x type {default ErrorResult,
+// object type with an error-name attribute, primitive, type shared by two errors} x status
+// assignment {distinct, shared} x response shape {body, headers+body} x DSL flags.
+func L2Errors() []MethodCase {
+	var out []MethodCase
+	n := 0
+	mk := func(feat map[string]string) *Method {
+		m := &Method{Name: fmt.Sprintf("m%d", n), Feat: feat, HTTP: &HTTPMap{Verb: "POST"}}
+		m.HTTP.Path = "/" + m.Name
+		m.Payload = ObjT(nil, A("sel", P(KString)))
+		m.Result = ObjT(nil, A("ok", P(KString)))
+		feat["family"] = "L2-errors"
+		n++
+		return m
+	}
+	errT := func() *TypeDef {
+		return &TypeDef{Name: "ErrT", Kind: "type", ErrorName: "name",
+			Attrs: []*Attr{A("name", P(KString)), A("msg", P(KString)), A("code", P(KInt))}, Required: []string{"name"}}
+	}
+	// default ErrorResult, distinct statuses
+	{
+		m := mk(map[string]string{"level": "method", "type": "default", "status": "distinct"})
+		m.Errors = []ErrorDef{{Name: "e_a"}, {Name: "e_b"}}
+		m.HTTP.Responses = []Resp{{Error: "e_a", Status: 400}, {Error: "e_b", Status: 409}}
+		out = append(out, MethodCase{M: m})
+	}
+	// default ErrorResult, two errors on one status
+	{
+		m := mk(map[string]string{"level": "method", "type": "default", "status": "shared"})
+		m.Errors = []ErrorDef{{Name: "e_a"}, {Name: "e_b"}, {Name: "e_c"}}
+		m.HTTP.Responses = []Resp{{Error: "e_a", Status: 400}, {Error: "e_b", Status: 400}, {Error: "e_c", Status: 404}}
+		out = append(out, MethodCase{M: m})
+	}
+	// DSL flags
+	{
+		m := mk(map[string]string{"level": "method", "type": "default", "status": "distinct", "flags": "dsl"})
+		m.Errors = []ErrorDef{{Name: "e_tmp", Temporary: true}, {Name: "e_to", Timeout: true}, {Name: "e_f", Fault: true}}
+		m.HTTP.Responses = []Resp{{Error: "e_tmp", Status: 503}, {Error: "e_to", Status: 504}, {Error: "e_f", Status: 500}}
+		out = append(out, MethodCase{M: m})
+	}
+	// object type with error name, shared by two errors, distinct and shared statuses
+	for _, st := range []string{"distinct", "shared"} {
+		m := mk(map[string]string{"level": "method", "type": "object-shared", "status": st})
+		m.Errors = []ErrorDef{{Name: "e_a", Type: User("ErrT")}, {Name: "e_b", Type: User("ErrT")}}
+		sb := 423
+		if st == "shared" {
+			sb = 422
+		}
+		m.HTTP.Responses = []Resp{{Error: "e_a", Status: 422}, {Error: "e_b", Status: sb}}
+		out = append(out, MethodCase{M: m, Types: []*TypeDef{errT()}})
+	}
+	// object type with a header-mapped attribute
+	{
+		m := mk(map[string]string{"level": "method", "type": "object", "status": "distinct", "shape": "headers+body"})
+		m.Errors = []ErrorDef{{Name: "e_a", Type: User("ErrT")}}
+		m.HTTP.Responses = []Resp{{Error: "e_a", Status: 422, Headers: []Map{{"code", "X-Code"}}}}
+		out = append(out, MethodCase{M: m, Types: []*TypeDef{errT()}})
+	}
+	// primitive error type
+	{
+		m := mk(map[string]string{"level": "method", "type": "primitive", "status": "distinct"})
+		m.Errors = []ErrorDef{{Name: "e_s", Type: P(KString)}, {Name: "e_a"}}
+		m.HTTP.Responses = []Resp{{Error: "e_s", Status: 418}, {Error: "e_a", Status: 400}}
+		out = append(out, MethodCase{M: m})
+	}
+	// service-level error and response
+	{
+		m := mk(map[string]string{"level": "service", "type": "default", "status": "distinct"})
+		m.Errors = []ErrorDef{{Name: "e_a"}}
+		m.HTTP.Responses = []Resp{{Error: "e_a", Status: 400}}
+		out = append(out, MethodCase{M: m, SvcErrors: []ErrorDef{{Name: "e_svc"}}, SvcHTTPErrs: []Resp{{Error: "e_svc", Status: 412}}})
+	}
+	// API-level error and response
+	{
+		m := mk(map[string]string{"level": "api", "type": "default", "status": "distinct"})
+		m.Errors = []ErrorDef{{Name: "e_api"}} // refers to the API-level definition; HTTP mapping inherited
+		out = append(out, MethodCase{M: m, APIErrors: []ErrorDef{{Name: "e_api"}}, APIHTTPErrs: []Resp{{Error: "e_api", Status: 429}}})
+	}
+	// no declared error at all
+	{
+		m := mk(map[string]string{"level": "none", "type": "none", "status": "none"})
+		out = append(out, MethodCase{M: m})
 	}
 	return out
 }
